@@ -176,6 +176,9 @@ NT2 = collections.namedtuple("NT2", ["u", "v"])
 NT3 = collections.namedtuple("NT3", ["p", "q", "r"])
 
 
+NESTED_PAIRS = []      # (spec, spec, why): nested specs built twice, children given in another keyword order / swapped
+
+
 def nested_universe(leaves, rng):
     from jumanji import specs as S
 
@@ -183,9 +186,19 @@ def nested_universe(leaves, rng):
     pick = lambda: leaves[int(rng.integers(0, len(leaves)))]  # noqa: E731
     for _ in range(6 if len(leaves) < 600 else 60):
         a, b, c = pick(), pick(), pick()
-        out.append(S.Spec(NT2, "NT2Spec", u=a, v=b))
+        s2 = S.Spec(NT2, "NT2Spec", u=a, v=b)
+        out.append(s2)
         inner = S.Spec(NT2, "Inner", u=b, v=c)
-        out.append(S.Spec(NT3, "NT3Spec", p=a, q=inner, r=c))
+        s3 = S.Spec(NT3, "NT3Spec", p=a, q=inner, r=c)
+        out.append(s3)
+        # children are named: the keyword order in which they were given is not part of a spec, which child holds
+        # which spec is (equality is decided child by child, by name)
+        NESTED_PAIRS.append((s2, S.Spec(NT2, "NT2Spec", v=b, u=a), "children_other_keyword_order"))
+        NESTED_PAIRS.append((s2, S.Spec(NT2, "NT2Spec", v=a, u=b), "children_swapped"))
+        NESTED_PAIRS.append((s2, S.Spec(NT2, "NT2Spec", u=b, v=a), "children_swapped"))
+        NESTED_PAIRS.append((s3, S.Spec(NT3, "NT3Spec", r=c, q=S.Spec(NT2, "Inner", v=c, u=b), p=a), "children_other_keyword_order"))
+        NESTED_PAIRS.append((s3, S.Spec(NT3, "NT3Spec", r=a, q=inner, p=c), "children_swapped"))
+        NESTED_PAIRS.append((s3, S.Spec(NT3, "NT3Spec", p=a, q=S.Spec(NT2, "Inner", u=c, v=b), r=c), "inner_children_swapped"))
     return out
 
 
@@ -474,6 +487,9 @@ def eq_events(specs_list, rng, evs, n_pairs):
             if oc == "ok" and type(c) is type(s) and spec_desc(c) != spec_desc(s):   # (no visible change on size-0 shapes)
                 add(s, c, "one_attribute_changed")
                 add(c, s, "one_attribute_changed_sym")
+    for a, b, why in NESTED_PAIRS:
+        add(a, b, why)
+        add(b, a, why + "_sym")
     for kind, lst in by_kind.items():
         for _ in range(n_pairs):
             a, b = lst[int(rng.integers(0, len(lst)))], lst[int(rng.integers(0, len(lst)))]
